@@ -599,6 +599,17 @@ class Gen:
         r = rng.below(100)
         if r < 8:
             return ('neg', self.num(d - 1))
+        if r < 11:
+            # a flat chain of + and - whose operands differ by more than the 24 bit significand: the grouping (left to right)
+            # decides the rounded result
+            big = rng.choice(['16777216', '33554432', '100000', '8388608', '1000000'])
+            small = rng.choice(['1', '1', '0.003', '0.5', '3'])
+            a, b, c = rng.choice([(big, small, small), (small, big, big), (big, big, small), (big, small, big)])
+            t = ('bin', rng.choice(['+', '-']), ('num', a), ('num', b))
+            t = ('bin', rng.choice(['+', '-']), t, ('num', c))
+            if rng.chance(0.3):
+                t = ('bin', rng.choice(['+', '-']), t, ('num', small))
+            return t
         if r < 40:
             op = rng.choice(['*', '/', '%', '+', '-', '+', '-', '*'])
             return ('bin', op, self.num(d - 1), self.num(d - 1))
